@@ -166,3 +166,146 @@ Section Inv.
       cbn [outcome] in Ho. eauto.
   Qed.
 End Inv.
+
+(* ---------------------------------------------------------------------------------------------- *)
+(* the index walk of Upper.v is the walk of SearchBest.v; a full walk visits every tree *)
+From LLF Require SearchBest SearchBestProofs.
+From Coq Require Import Sorting.Permutation.
+Notation walk_index := LLF.SearchBest.walk_index.
+Notation W64z := LLF.SearchBest.W64z.
+
+Lemma walk_idx_walk_index start n i :
+  0 < n -> (i + 1) / 2 <= start + n + W64 -> walk_idx start n i = walk_index n start i.
+Proof.
+  intros Hn Hi. unfold walk_idx, SearchBest.walk_index, SearchBest.walk_off. apply N2Z.inj.
+  rewrite Z2N.id by (apply Z.mod_pos_bound; lia).
+  destruct (N.even i).
+  - rewrite !N2Z.inj_mod. f_equal. f_equal. lia.
+  - rewrite !N2Z.inj_mod. f_equal.
+    change (Z.of_N W64) with W64z.
+    replace (Z.of_N (start + n + W64 - (i + 1) / 2))
+      with (Z.of_N (start + n) + - Z.of_N ((i + 1) / 2) + 1 * W64z)%Z
+      by (unfold W64z; change W64 with 18446744073709551616 in *; lia).
+    apply Z.mod_add. unfold W64z. lia.
+Qed.
+
+Lemma walk_idx_cover start n t :
+  0 < n -> start + 2 * n < W64 -> t < n -> exists j, j < n /\ walk_idx start n j = t.
+Proof.
+  intros Hn Hb Ht.
+  pose proof (SearchBestProofs.walk_all n start Hn Hb) as Hp.
+  assert (Hin : In t (SearchBest.walk n start 0 n)).
+  { eapply Permutation_in; [apply Permutation_sym; exact Hp|]. apply SearchBestProofs.in_nrange. lia. }
+  unfold SearchBest.walk in Hin. apply in_map_iff in Hin. destruct Hin as (j & Hj & Hr).
+  apply SearchBestProofs.in_nrange in Hr. exists j. split; [lia|].
+  rewrite walk_idx_walk_index; auto.
+  assert ((j + 1) / 2 <= j + 1) by (apply N.div_le_upper_bound; lia). lia.
+Qed.
+
+(* ---------------------------------------------------------------------------------------------- *)
+(* completeness of search_best: if some visited index is "good" (its access cannot fail with
+   Err EMemory, and it is rated as a candidate or a direct hit), the search does not end with Err EMemory *)
+Lemma sb_add_nonempty {K V} (le : K -> K -> bool) cap (buf : list (K * V)) x :
+  (0 < cap)%nat -> sb_add le cap buf x <> [].
+Proof.
+  intros Hc. unfold sb_add. destruct (Nat.ltb (length buf) cap) eqn:E.
+  - destruct (sb_pos le (fst x) buf), buf; cbn [insert_at]; discriminate.
+  - apply Nat.ltb_ge in E. destruct buf as [|a r]; [cbn [length] in E; lia|].
+    destruct (sb_pos le (fst x) (a :: r)) as [|p]; [discriminate|].
+    cbn [tl]. destruct p, r; cbn [insert_at]; discriminate.
+Qed.
+
+Section Complete.
+  Variable g : geom.
+  Context {A : Type}.
+  Variable access : upper -> N -> res A * upper.
+  Variable rate : N -> N -> pol.
+  Variable n : N.
+  Variable I : upper -> Prop.
+  Variable G : N -> Prop.                    (* good indices (a property stable over I-states) *)
+
+  Hypothesis HIn : forall u, I u -> ntrees u = n.
+  Hypothesis Hacc : forall u i u', I u -> i < n -> access u i = (Err EMemory, u') -> I u'.
+  (* whatever is rated is good *)
+  Hypothesis Hrate : forall u i t, I u -> tree_at u i = Some t -> t_res t = false ->
+                                   rate (t_class t) (t_free t) <> PInvalid -> G i.
+  (* a good index is rated and its access does not fail with Err EMemory *)
+  Hypothesis HG1 : forall u i t, I u -> G i -> tree_at u i = Some t ->
+                                 t_res t = false /\ rate (t_class t) (t_free t) <> PInvalid.
+  Hypothesis HG2 : forall u i u', I u -> G i -> access u i = (Err EMemory, u') -> False.
+
+  Lemma sb_try_complete cands : Forall (fun c => snd c < n /\ G (snd c)) cands ->
+    forall u u', I u -> sb_try access u cands = (Err EMemory, u') -> cands = [].
+  Proof.
+    destruct cands as [|[k i] rest]; intros Hc u u' HI H; [reflexivity|exfalso].
+    cbn [sb_try] in H. inversion Hc as [|? ? [Hi HGi] Hrest]; subst. cbn [snd] in *.
+    destruct (access u i) as [ra u1] eqn:E.
+    destruct ra as [x|e|s]; try discriminate.
+    destruct e; try discriminate.
+    eapply HG2; eauto.
+  Qed.
+
+  Lemma sb_loop_complete cap (Hcap : (0 < cap)%nat) (Hn : n <> 0) k : forall u start i best u',
+    I u -> Forall (fun c => snd c < n /\ G (snd c)) best ->
+    sb_loop g access rate cap u start i k best = (Err EMemory, u') ->
+    best = [] /\ forall j, i <= j < i + N.of_nat k -> ~ G (walk_idx start n j).
+  Proof.
+    induction k as [|k IH]; intros u start i best u' HI Hb H; cbn [sb_loop] in H.
+    - split; [|intros; lia].
+      assert (Hr : rev best = []).
+      { eapply sb_try_complete; [|exact HI|exact H]. unfold sb_iter_rev.
+        apply Forall_forall. intros x Hx. apply in_rev in Hx. rewrite Forall_forall in Hb. auto. }
+      destruct best as [|a r]; [reflexivity|]. cbn [rev] in Hr. destruct (rev r); discriminate.
+    - pose proof (HIn _ HI) as Hnt. rewrite Hnt in H.
+      pose proof (walk_idx_lt start n i Hn) as Hlt.
+      set (idx := walk_idx start n i) in *.
+      destruct (tree_at_lt_some u idx) as [t Ht]; [rewrite Hnt; exact Hlt|].
+      rewrite Ht in H.
+      assert (Hstep : forall u1 best1, I u1 -> Forall (fun c => snd c < n /\ G (snd c)) best1 ->
+                sb_loop g access rate cap u1 start (i + 1) k best1 = (Err EMemory, u') ->
+                ~ G idx -> best1 = best ->
+                best = [] /\ forall j, i <= j < i + N.of_nat (S k) -> ~ G (walk_idx start n j)).
+      { intros u1 best1 HI1 Hb1 H1 Hng ->. destruct (IH _ _ _ _ _ HI1 Hb1 H1) as [He Hj].
+        split; [exact He|]. intros j Hjr. destruct (N.eq_dec j i) as [->|Hne]; [exact Hng|].
+        apply Hj. lia. }
+      assert (Hbad : forall key, sb_loop g access rate cap u start (i + 1) k
+                                   (sb_add N.leb cap best (key, idx)) = (Err EMemory, u') ->
+                                 G idx -> False).
+      { intros key H1 HG. 
+        assert (Hb1 : Forall (fun c => snd c < n /\ G (snd c)) (sb_add N.leb cap best (key, idx))).
+        { apply Forall_forall. intros x Hx. apply sb_add_In in Hx. rewrite Forall_forall in Hb.
+          destruct Hx as [->|Hx]; [split; assumption|auto]. }
+        destruct (IH _ _ _ _ _ HI Hb1 H1) as [He _].
+        eapply sb_add_nonempty; [exact Hcap|exact He]. }
+      destruct (t_res t) eqn:Eres.
+      { eapply Hstep; eauto. intros HG. destruct (HG1 _ _ _ HI HG Ht). congruence. }
+      assert (HGi : rate (t_class t) (t_free t) <> PInvalid -> G idx) by (eapply Hrate; eauto).
+      destruct (rate (t_class t) (t_free t)) as [m| | |] eqn:Er.
+      + assert (HG : G idx) by (apply HGi; discriminate).
+        assert (Hdirect : match access u idx with
+                          | (Err EMemory, u1) => sb_loop g access rate cap u1 start (i + 1) k best
+                          | other => other end = (Err EMemory, u') -> False).
+        { destruct (access u idx) as [ra u1] eqn:E.
+          destruct ra as [x|e|s]; try discriminate. destruct e; try discriminate.
+          intros _. eapply HG2; eauto. }
+        destruct m as [|p]; [exfalso; eauto|].
+        repeat (destruct p as [p|p|]; try (exfalso; eauto; fail)).
+      + exfalso. eapply Hbad; eauto. apply HGi. discriminate.
+      + exfalso. eapply Hbad; eauto. apply HGi. discriminate.
+      + eapply Hstep; eauto. intros HG. destruct (HG1 _ _ _ HI HG Ht) as [_ Hx]. congruence.
+  Qed.
+
+  Lemma search_best_complete cap (Hcap : (0 < cap)%nat) u start u' :
+    I u -> start + 2 * n < W64 ->
+    search_best g access rate cap u start 0 (ntrees u) = (Err EMemory, u') ->
+    forall t, t < n -> ~ G t.
+  Proof.
+    intros HI Hb H t Ht. unfold search_best in H. rewrite (HIn _ HI) in H.
+    assert (Hn : n <> 0) by lia.
+    replace (n =? 0) with false in H by (symmetry; apply N.eqb_neq; exact Hn).
+    rewrite andb_false_r in H.
+    destruct (sb_loop_complete cap Hcap Hn _ _ _ _ _ _ HI (Forall_nil _) H) as [_ Hj].
+    destruct (walk_idx_cover start n t) as (j & Hjn & <-); try lia.
+    apply Hj. rewrite N.sub_0_r. unfold nn. rewrite N2Nat.id. lia.
+  Qed.
+End Complete.
